@@ -24,6 +24,8 @@ import json
 from pathlib import Path
 from typing import Optional
 
+import os
+_NO_K7 = bool(os.environ.get("VERIF_NO_K7"))
 TABLE = Path(__file__).with_name("local_names.json")
 _REF: Optional[dict] = None
 
@@ -121,6 +123,157 @@ def _inline_temp_returns(fn: ast.AST) -> None:
         if isinstance(node, ast.Try):
             for h in node.handlers:
                 h.body = block(h.body)
+
+
+# ------------------------------------------------------------------ K7: single-use temporaries
+_PURE = (ast.Name, ast.Constant)
+
+
+def _pure(e: ast.AST) -> bool:
+    if isinstance(e, _PURE):
+        return True
+    if isinstance(e, ast.Attribute):
+        return _pure(e.value)
+    return False
+
+
+def _eval_order_children(n: ast.AST):
+    """Sub-expressions of n in evaluation order, or None when evaluation of some child is conditional / deferred."""
+    if isinstance(n, ast.Call):
+        return [n.func] + list(n.args) + [k.value for k in n.keywords]
+    if isinstance(n, ast.Attribute):
+        return [n.value]
+    if isinstance(n, ast.BinOp):
+        return [n.left, n.right]
+    if isinstance(n, ast.UnaryOp):
+        return [n.operand]
+    if isinstance(n, ast.Subscript):
+        return [n.value, n.slice]
+    if isinstance(n, ast.Slice):
+        return [x for x in (n.lower, n.upper, n.step) if x is not None]
+    if isinstance(n, ast.Compare):
+        return [n.left] + list(n.comparators) if len(n.ops) == 1 else None
+    if isinstance(n, ast.JoinedStr):
+        return list(n.values)
+    if isinstance(n, ast.FormattedValue):
+        return [n.value] + ([n.format_spec] if n.format_spec is not None else [])
+    if isinstance(n, (ast.Tuple, ast.List, ast.Set)):
+        return list(n.elts)
+    if isinstance(n, ast.Starred):
+        return [n.value]
+    if isinstance(n, ast.Dict):
+        out = []
+        for k, v in zip(n.keys, n.values):
+            if k is not None:
+                out.append(k)
+            out.append(v)
+        return out
+    if isinstance(n, _PURE):
+        return []
+    return None  # BoolOp, IfExp, Lambda, comprehensions, NamedExpr, Await, Yield ...: do not inline through
+
+
+def _first_use_is_safe(root: ast.AST, name: str) -> bool:
+    """`name` occurs exactly once under root, and everything evaluated before that occurrence is pure."""
+    found = [False]
+
+    def rec(n) -> bool:
+        """True = keep going (nothing impure seen, name not yet found); raises StopIteration style via found."""
+        if isinstance(n, ast.Name) and n.id == name:
+            found[0] = True
+            return True
+        kids = _eval_order_children(n)
+        if kids is None:
+            return False
+        for k in kids:
+            if found[0]:
+                break
+            contains = any(isinstance(x, ast.Name) and x.id == name for x in ast.walk(k))
+            if contains:
+                if not rec(k):
+                    return False
+            elif not _pure_tree(k):
+                return False
+        return True
+
+    ok = rec(root)
+    return ok and found[0]
+
+
+def _pure_tree(e: ast.AST) -> bool:
+    """No calls / subscripts-with-side-effects: names, constants, attribute chains, and displays/f-strings of those."""
+    for n in ast.walk(e):
+        if isinstance(n, (ast.Call, ast.Await, ast.Yield, ast.YieldFrom, ast.NamedExpr, ast.Lambda, ast.ListComp, ast.SetComp,
+                          ast.DictComp, ast.GeneratorExp)):
+            return False
+    return True
+
+
+def _inline_single_use_temps(fn: ast.AST) -> int:
+    """`t = E` directly followed by a simple statement that uses t exactly once, t used nowhere else, and nothing
+    impure is evaluated between: the temporary is replaced by E."""
+    count = [0]
+    declared = set()
+    for n in ast.walk(fn):
+        if isinstance(n, (ast.Global, ast.Nonlocal)):
+            declared.update(n.names)
+
+    name_holder = [""]
+
+    def uses(name):
+        return sum(1 for n in ast.walk(fn) if isinstance(n, ast.Name) and n.id == name)
+
+    def value_slot(st):
+        if isinstance(st, (ast.Expr, ast.Return)) and st.value is not None:
+            return st.value
+        if isinstance(st, (ast.Assign, ast.AnnAssign)) and st.value is not None:
+            tg = st.targets if isinstance(st, ast.Assign) else [st.target]
+            # the right-hand side is evaluated before any part of the targets
+            if not any(isinstance(n, ast.Name) and n.id == name_holder[0] for t in tg for n in ast.walk(t)):
+                return st.value
+        if isinstance(st, ast.AugAssign) and isinstance(st.target, ast.Name):
+            return st.value
+        return None
+
+    def block(stmts):
+        out = list(stmts)
+        i = 0
+        while i + 1 < len(out):
+            st, nxt = out[i], out[i + 1]
+            if isinstance(st, ast.Assign) and len(st.targets) == 1 and isinstance(st.targets[0], ast.Name):
+                name = st.targets[0].id
+                name_holder[0] = name
+                slot = value_slot(nxt)
+                if slot is not None and name not in declared and uses(name) == 2 and _dead_after_return(fn, name) \
+                        and not isinstance(st.value, (ast.Constant, ast.List, ast.Dict, ast.Set, ast.ListComp, ast.SetComp, ast.DictComp,
+                                                      ast.GeneratorExp, ast.Lambda, ast.IfExp, ast.BoolOp, ast.NamedExpr)) \
+                        and sum(1 for n in ast.walk(slot) if isinstance(n, ast.Name) and n.id == name) == 1 \
+                        and _first_use_is_safe(slot, name):
+                    val = st.value
+
+                    class Sub(ast.NodeTransformer):
+                        def visit_Name(self, n):
+                            return val if n.id == name and isinstance(n.ctx, ast.Load) else n
+
+                    nxt.value = Sub().visit(slot)
+                    del out[i]
+                    count[0] += 1
+                    i = max(i - 1, 0)
+                    continue
+            i += 1
+        return out
+
+    for node in ast.walk(fn):
+        if node is not fn and isinstance(node, (ast.FunctionDef, ast.AsyncFunctionDef, ast.ClassDef, ast.Lambda)):
+            continue
+        for field in ("body", "orelse", "finalbody"):
+            v = getattr(node, field, None)
+            if isinstance(v, list) and v and isinstance(v[0], ast.stmt):
+                setattr(node, field, block(v))
+        if isinstance(node, ast.Try):
+            for h in node.handlers:
+                h.body = block(h.body)
+    return count[0]
 
 
 # ------------------------------------------------------------------ K4
@@ -430,6 +583,8 @@ def canonicalise(tree: ast.Module, modname: str, log: Optional[list] = None) -> 
     # innermost first, so that a nested function is settled before its parent is renamed
     for q, fn in reversed(fns):
         _inline_temp_returns(fn)
+        if not _NO_K7:
+            _inline_single_use_temps(fn)
         ref = table.get(q)
         if ref:
             applied = rename_locals(fn, align(bindings(fn), ref))
@@ -452,6 +607,8 @@ def make_table(repo_src: Path) -> dict:
         tree = _Shape().visit(ast.parse(path.read_text(encoding="utf-8")))
         for q, fn in functions_of(tree, modname):
             _inline_temp_returns(fn)
+            if not _NO_K7:
+                _inline_single_use_temps(fn)
         for q, fn in functions_of(tree, modname):
             b = bindings(fn)
             if b:
